@@ -165,7 +165,7 @@ func vfC15(env *vfc.Env) {
 				}
 			}
 			res.Event("route_tables", 1)
-			served = got
+			served = append([]int{}, got...) // (an empty, non-nil list: nil would mean "all buckets")
 		}
 		cfg := store.VFConfig{NumBucket: nb, Served: served, TreeHeight: r.Range(2, 3), BodyMax: 1 << 20, DataFileMax: int64(r.Pick(16, 4000<<12)) * 256}
 		sut, err := vfOpenSUT(cfg, filepath.Join(env.Work, id), res)
